@@ -1,37 +1,46 @@
 (** C08 -- aggregation sums exactly the cells it merges and loses nothing.
     Static theorems about Model/Aggregate.v (any rule table; the generated one is instantiated in
-    GenProps/C08_rules.v).
+    GenProps/C08_rules.v).  Everything below is proved in full (no `_partial` left).
 
-    PROVED IN FULL
-    - alignment loops of _aggregate_eval/_aggregate_period: the model's fuel suffices and the result
-      is the grid point (orbit of the origin under resolution_delta) immediately before the first
-      date [C08_align]; evaluation grid loop [C08_eval_grid]; for day/week units without any range
-      bound, with the closed form origin + k*q [C08_align_days].
-    - window assignment: every cell of the (proved) period-sorted list is relabelled with the grid
-      window (g, g+res] that holds its period start, and its period end lies inside it -- otherwise
-      TriangleError [C08_period_windows, C08_period_errors, C08_no_straddler_survives].
-    - exactly one output cell per (window, evaluation date), carrying the slice's metadata and the
-      summarised values of exactly the cells relabelled to it; additive fields are sums
-      [C08_one_cell_per_window_and_eval, C08_window_field_is_sum]; conservation of every field total per
-      slice and evaluation date [C08_conservation_per_eval].
-    - evaluation resolution only: the result is `filter (evaluation date in the grid)` [C08_eval_only].
-    - incremental input: aggregate x = to_incremental (aggregate (to_cumulative x)) [C08_incremental]
-      (through wp-basis's Model/Basis.v).
-    - month arithmetic facts for month ids 0..1571 (1970-01 .. 2100-12), by kernel computation:
-      resolution_delta of a month end is the month end q months later, strictly increasing, windows
-      are [month_start (i+1), month_end (i+q)] [C08_month_grid, C08_month_end_increasing].
-    PARTIAL (statement visible below as C08_period_windows_partial's hypotheses)
-    - the generic window theorems assume `x < delta r false x`, `delta r true x < x`,
-      `delta r false (delta r true x) = x` for ALL x.  This holds for day/week units (instantiated:
-      C08_day_units).  For month units it holds on month ends of 1970-2100 only (C08_month_grid);
-      lifting the generic theorems to range-relative hypotheses is not done, so for month units the
-      closed-form window statement is checked on every run by the correspondence
-      implementation = walk model = loop-free specification agg_ref (closed-form windows / grid).
-    - fuel sufficiency of the per-cell advance loop inside relabel is not proved (exhaustion would
-      surface as Err OtherError in the correspondence). *)
+    SCOPE of the closed-form theorems ([res_scope r origin dates], per resolution):
+    - day / week units: quantity >= 1; no bound on dates or origin.
+    - month / quarter / half-year / year units (quantity q months, 1 <= q <= 786): the origin is a
+      month end of 1970-01-01 .. 2100-12-31 with month_id origin + q <= 1571, and every date involved
+      (period starts for period_resolution, evaluation dates for eval_resolution) lies in
+      month_end (q-1) < d <= month_end (1571-q)  (month ids 0..1571 = 1970-01 .. 2100-12).  The
+      calendar facts are kernel computations over all 1572 month ids and all 47 847 ordinals of that
+      range [C08_calendar_1970_2100, C08_month_grid]; the bound is part of each statement.
+      TIE for month arithmetic: the source calls the float-based add_months; its agreement with
+      Calendar.addm on month-aligned dates of 1970-2100 is theorem
+      C12_add_months_agrees_with_Z_calendar of the C12 check (offsets up to +-120 / +-600 months).
+      Period ends are unconstrained; the triangle need not be month-aligned for these theorems.
+
+    MAIN THEOREMS
+    - C08_aggregate_is_closed_form: inside the scope the walk model equals the LOOP-FREE specification,
+      aggregate = agg_ref: windows and evaluation grid by integer division on day ordinals / month ids,
+      window k = [origin + k*res + 1 day, origin + (k+1)*res].  Hence the per-run check agg_spec_b on the
+      implementation's output is the comparison with the model [C08_agg_spec_b_is_model_comparison].
+    - C08_period_windows / C08_eval_grid_filter: the two halves (_aggregate_period = sort, refuse
+      straddlers, re-label each cell with window_of (period start), group, sum;  _aggregate_eval =
+      filter (evaluation date on the grid origin + k*res)).
+    - C08_window_of_spec: window_of d is the unique grid window (G k, G (k+1)] containing d.
+    - C08_closed_form_one_cell_per_window: one output cell per distinct (window, evaluation date) with the
+      slice's metadata and the summarised values of exactly the cells whose period start lies in the
+      window; no surviving cell reaches beyond its window; C08_closed_form_straddle_refused: otherwise
+      TriangleError.
+    - C08_no_fuel_exhaustion: inside the scope _aggregate_period fails only by the straddle refusal
+      (TriangleError) or while summarising a group -- fuel exhaustion (Err OtherError) of any loop,
+      including the per-cell advance loop of relabel, is impossible.
+    - sums and conservation: C08_window_field_is_sum, C08_closed_form_conservation (per slice and evaluation
+      date, input cells vs output cells), C08_conservation_per_eval, C08_sort_conserves.
+    - C08_eval_only, C08_incremental (through wp-basis's Model/Basis.v), C08_empty_slice,
+      C08_empty_triangle.
+    - the earlier theorems about the loops under UNIVERSAL step hypotheses (satisfied by day units only)
+      are kept: C08_align, C08_eval_grid, C08_align_days, C08_period_windows_universal_step, ... *)
 From Coq Require Import ZArith List Bool.
 From Bermuda Require Import Model.Base Lib.Calendar Model.Summarize Model.Basis Model.Aggregate
-  Proofs.SummarizeLib Proofs.Summarize Proofs.Summarize2 Proofs.Aggregate.
+  Proofs.SummarizeLib Proofs.Summarize Proofs.Summarize2 Proofs.Aggregate Proofs.AggregateGrid
+  Proofs.AggregateInst Proofs.AggregateRef.
 Import ListNotations.
 Local Open Scope Z_scope.
 
@@ -63,7 +72,7 @@ Section C08.
   Variable nl : list str.
 
   (* windows are the consecutive grid intervals (g, delta g] starting the day after a grid point *)
-  Theorem C08_period_windows_partial : forall r,
+  Theorem C08_period_windows_universal_step : forall r,
     (forall x, x < delta r false x) -> (forall x, delta r true x < x) ->
     (forall x, delta r false (delta r true x) = x) ->
     forall origin prem cells out,
@@ -73,6 +82,51 @@ Section C08.
       Forall2 (window_assignment r init) (sort_coords cells) relabelled /\
       map_result (window_cell wavg rules nl prem) (groupby coord_eqb coord3 relabelled) = Ok out.
   Proof. exact (aggregate_period_spec wavg rules nl). Qed.
+
+  (* ---- phase 2: closed form inside the scope (day units: always; month units: 1970-2100) ---- *)
+  Theorem C08_aggregate_is_closed_form : forall a t,
+    (is_incremental t = false -> cum_scope a t) ->
+    (forall cum, is_incremental t = true -> to_cumulative std_desc t = Ok cum -> cum_scope a cum) ->
+    aggregate wavg rules nl a t = agg_ref wavg rules nl a t.
+  Proof. exact (aggregate_eq_ref wavg rules nl). Qed.
+  Theorem C08_agg_spec_b_is_model_comparison : forall a t out,
+    (is_incremental t = false -> cum_scope a t) ->
+    (forall cum, is_incremental t = true -> to_cumulative std_desc t = Ok cum -> cum_scope a cum) ->
+    agg_spec_b wavg rules nl a t out = result_ueqb (aggregate wavg rules nl a t) out.
+  Proof. exact (agg_spec_b_is_model_comparison wavg rules nl). Qed.
+  Theorem C08_period_windows : forall r origin prem cells,
+    res_scope r origin (map ps cells) ->
+    aggregate_period wavg rules nl (Some r) origin prem cells = ref_period wavg rules nl r origin prem cells.
+  Proof. exact (period_eq_ref wavg rules nl). Qed.
+  Theorem C08_no_fuel_exhaustion : forall r origin prem cells e,
+    res_scope r origin (map ps cells) ->
+    aggregate_period wavg rules nl (Some r) origin prem cells = Err e ->
+    (e = TriangleError /\ exists c, In c cells /\ snd (window_of r origin (ps c)) < pe c) \/
+    (forall c, In c cells -> pe c <= snd (window_of r origin (ps c))) /\
+    map_result (window_cell wavg rules nl prem)
+      (groupby coord_eqb coord3 (map (to_window r origin) (sort_coords cells))) = Err e.
+  Proof. exact (period_errors_in_scope wavg rules nl). Qed.
+  Theorem C08_closed_form_one_cell_per_window : forall r origin prem cells out,
+    ref_period wavg rules nl r origin prem cells = Ok out ->
+    (forall c, In c cells -> snd (window_of r origin (ps c)) >= pe c) /\
+    let l := map (to_window r origin) (sort_coords cells) in
+    map coord3 out = dedupe coord_eqb (map coord3 l) /\
+    forall o, In o out ->
+      let g := members coord_eqb coord3 l (coord3 o) in
+      ckind o = KCum /\ (exists c0 rest, g = c0 :: rest /\ cmeta o = cmeta c0) /\
+      summarize_cell_values wavg rules nl prem g = Ok (cvals o).
+  Proof. exact (ref_period_spec wavg rules nl). Qed.
+  (* per slice and evaluation date the total of every summed field is conserved by _aggregate_period *)
+  Theorem C08_closed_form_conservation : forall r origin prem cells out k i e,
+    ref_period wavg rules nl r origin prem cells = Ok out ->
+    lookup_rule rules k = Some (RSum k) -> (prem = true \/ mem_str k nl = false) ->
+    (forall o, In o out -> in_range i (getv k o)) ->
+    total_at e i k out = total_at e i k cells.
+  Proof. exact (ref_period_conserves wavg rules nl). Qed.
+  Theorem C08_closed_form_straddle_refused : forall r origin prem c cells,
+    In c cells -> snd (window_of r origin (ps c)) < pe c ->
+    ref_period wavg rules nl r origin prem cells = Err TriangleError.
+  Proof. exact (ref_period_straddle wavg rules nl). Qed.
 
   Theorem C08_day_units : forall q, 1 <= q -> forall origin prem cells out,
     aggregate_period wavg rules nl (Some (RDay q)) origin prem cells = Ok out ->
@@ -148,6 +202,31 @@ Section C08.
   Proof. exact (aggregate_incremental wavg rules nl). Qed.
 End C08.
 
+(* evaluation resolution: filter on the closed-form grid *)
+Theorem C08_eval_grid_filter : forall r origin c0 rest,
+  res_scope r origin (map ev (c0 :: rest)) ->
+  aggregate_eval (Some r) origin (c0 :: rest) = Ok (filter (fun c => on_grid r origin (ev c)) (c0 :: rest)).
+Proof. exact eval_eq_filter. Qed.
+(* window_of d is the unique grid window holding d *)
+Theorem C08_window_of_spec : forall r origin G klo khi kidx d,
+  grid_ok r origin G klo khi kidx -> G klo < d <= G khi ->
+  let w := window_of r origin d in
+  fst w <= d <= snd w /\
+  exists k, klo <= k < khi /\ fst w = G k + 1 /\ snd w = G (k + 1) /\
+            forall k', klo <= k' < khi -> G k' < d <= G (k' + 1) -> k' = k.
+Proof. exact window_of_spec. Qed.
+(* the two families of resolutions are grids *)
+Theorem C08_day_grid : forall q origin klo khi, 1 <= q -> klo <= 0 -> 0 < khi ->
+  grid_ok (RDay q) origin (day_G origin q) klo khi (day_kidx origin q).
+Proof. exact day_grid_ok. Qed.
+Theorem C08_month_grid_ok : forall origin q, month_origin_ok origin q ->
+  grid_ok (RMonth q) origin (month_G origin q) (month_klo origin q) (month_khi origin q) (month_kidx origin q).
+Proof. exact month_grid_ok. Qed.
+Theorem C08_calendar_1970_2100 : forall d, LO <= d <= HI ->
+  0 <= month_id d <= 1571 /\ month_start (month_id d) <= d <= month_end (month_id d) /\
+  (is_month_end d = true -> d = month_end (month_id d)).
+Proof. exact ord_facts. Qed.
+
 (* month arithmetic, month ids 0..1571 (1970-01 .. 2100-12) *)
 Theorem C08_month_grid : forall i q, 0 <= i <= 1571 -> 1 <= q ->
   delta (RMonth q) false (month_end i) = month_end (i + q) /\
@@ -159,12 +238,18 @@ Proof. exact month_end_increasing. Qed.
 
 Print Assumptions C08_align.
 Print Assumptions C08_align_days.
-Print Assumptions C08_period_windows_partial.
+Print Assumptions C08_period_windows_universal_step.
 Print Assumptions C08_day_units.
 Print Assumptions C08_one_cell_per_window_and_eval.
 Print Assumptions C08_conservation_per_eval.
 Print Assumptions C08_incremental.
 Print Assumptions C08_month_grid.
+Print Assumptions C08_aggregate_is_closed_form.
+Print Assumptions C08_period_windows.
+Print Assumptions C08_no_fuel_exhaustion.
+Print Assumptions C08_eval_grid_filter.
+Print Assumptions C08_month_grid_ok.
+Print Assumptions C08_calendar_1970_2100.
 
 (* non-vacuity: four quarterly cells of one slice aggregate to one yearly cell per evaluation date *)
 Definition k_paid : str := [112;97;105;100;95;108;111;115;115].
@@ -180,3 +265,11 @@ Example C08_nonvacuous :
   /\ aggregate wavg_mask ex_rules [] (mkArgs (Some (standardize 4 UMonth)) None 730119 730119 true) ex_tri
   = Err TriangleError.
 Proof. repeat split; vm_compute; reflexivity. Qed.
+(* the scope hypotheses are satisfiable: yearly windows from 1999-12-31 on that triangle *)
+Example C08_scope_nonvacuous :
+  cum_scope (mkArgs (Some (standardize 1 UYear)) (Some (standardize 1 UQuarter)) 730119 730119 true) ex_tri.
+Proof.
+  split; intros r E; inversion E; subst; cbn [res_scope standardize];
+    (split; [repeat split; vm_compute; congruence|]); (split; [vm_compute; congruence|]);
+    intros d Hd; cbn in Hd; repeat (destruct Hd as [<-|Hd]; [vm_compute; split; congruence|]); destruct Hd.
+Qed.
